@@ -107,7 +107,7 @@ PROPS['C17'] = dict(
 )
 
 PROPS['C10'] = dict(
-    theorem='C10_printer_is_layout, C10_sprint, C10_swrite, C10_shown_true (Properties/C10.v)',
+    theorem='C10_printer_is_layout, C10_sprint, C10_swrite, C10_shown_true, C10_label_is_position (Properties/C10.v)',
     functional=True,
     level_text='Theorem for all option values (rows/columns incl. <= 0, any missing rune, count margin, leading decimal, trailing LF), all views, digit strings '
                'and AddRange lists: the streaming printer (first-cell / row-break / column-gap branches, skipRowsFor, gap filling) emits exactly the declarative '
